@@ -124,7 +124,7 @@ def main():
                         cands.append((d, pid, name))
     else:
         for pid in ALL:
-            for x in ("a", "b", "c", "d", "e", "f", "g", "h"):
+            for x in "abcdefghijklmnop":
                 d = os.path.join(a.src, pid, x)
                 if os.path.isdir(d) and (not a.only or a.only in f"{pid}-{x}"):
                     cands.append((d, pid, f"{pid}-{x}"))
